@@ -3,7 +3,7 @@ import common
 import framing
 import gen
 
-TOL = 200  # ms
+TOL = 400  # ms (wide margin: a loaded machine must not turn a transient interruption into a lasting one)
 
 
 def split_at(rng, data, k):
@@ -85,7 +85,7 @@ def gen_case(rng):
 def run(res, args):
     res.rule = ("the real filehandler.Handle behind bufio.Reader over a scripted io.Reader: single and double EOF / 'i/o timeout' "
                 "results between frames and inside frames at the phase boundaries (after 1, 3, 5 bytes, mid-payload, inside the "
-                "CRC), tolerance zero, other read errors at any position, silence of 4x the tolerance; tolerance 200 ms, wait "
+                "CRC), tolerance zero, other read errors at any position, silence of 4x the tolerance; tolerance 400 ms, wait "
                 "1 ms, pauses either 0 or 4x the tolerance; non-trivial = an interruption inside a frame")
     res.assumptions = ["wall-clock behaviour between the margins (pauses of 0 or >= 4x the tolerance) is not explored",
                        "the model's clock is driven by the script's pauses and the loop's own sleeps"]
